@@ -36,6 +36,9 @@ TNORMS = ["AlgebraicProduct", "BoundedDifference", "DrasticProduct", "EinsteinPr
 SNORMS = ["AlgebraicSum", "BoundedSum", "DrasticSum", "EinsteinSum", "HamacherSum", "Maximum", "NilpotentMaximum",
           "NormalizedSum", "UnboundedSum"]
 HEDGES = ["any", "extremely", "not", "seldom", "somewhat", "very"]
+# the public extension points: a hedge that wraps a Python callable and one that owns a Function term, registered by name
+# in the default hedge factory (as a user would) so that rule texts can use them
+EXT_HEDGES = ["squared", "rooted"]
 INTEGRAL = ["Bisector", "Centroid", "LargestOfMaximum", "MeanOfMaximum", "SmallestOfMaximum"]
 WEIGHTED = ["WeightedAverage", "WeightedSum"]
 ACTIVATIONS = ["General", "First", "Last", "Highest", "Lowest", "Proportional", "Threshold"]
@@ -51,9 +54,10 @@ FORMULAS_AB = [
     "asinh({a}) + acosh(1.0 + abs({b})) + atanh(tanh({a}) / 2.0)", "gt({a}, {b}) + le({a}, {b}) * 2.0 + eq({a}, {b}) + neq({a}, 0.0)",
     "pi * {a} + tan({b} / 10.0)", "({a} + {b}) / 2.0", "{a} / {b}", "x * {a} + (1.0 - x) * {b}", "min({a}, 0.5) + max({b}, 0.25)",
     ".-{a} * 2.0", "!gt({a}, 0.5) + 0.0", "{a} ^ {b}", "{a} ** {b} + 1.0", "pow({a}, {b})", "({a} * 1e200) ^ 2", "gt({a}, 0.2) and lt({b}, 0.8)", "gt({a}, 0.7) or gt({b}, 0.7)",
+    "gain0 * {a}", "gain0 * {a} + {b}",
 ]
 FORMULAS_X = ["x", "x", "x", "x * 0.5", "1.0 - x", "gt(x, 0.5)", "exp(.-((x - 0.5) * (x - 0.5) * 8.0))", "abs(sin(x * 3.0))", "x ^ 2", "min(x, 0.5)",
-              "x / (1.0 + abs(x))", "k * x"]
+              "x / (1.0 + abs(x))", "k * x", "gain0 * x"]
 FORMULAS_OUT = ["{o} * 0.5 + {a}", "{a} - {o}"]
 
 
@@ -131,6 +135,10 @@ def gen_term_args(rng, cls: str, lo: float, hi: float) -> dict[str, Any]:
         n = rng.randint(2, 6)
         xs = sorted(set(_pts(rng, lo, hi, n, strict=True)))
         a = {"values": [v for x in xs for v in (x, round(rng.random(), 3) if rng.random() < 0.8 else C(rng, [0.0, 1.0]))]}
+    elif cls == "DomainRamp":
+        a = dict(zip(("start", "end"), _pts(rng, lo + 0.3 * w, hi, 2, strict=True)))
+    elif cls == "InputGain":
+        a = {"gain": C(rng, [0.5, 1.0, 2.0])}
     elif cls == "Constant":
         v = C(rng, [lo, hi, lo + w * rng.random(), lo - w * 0.5, hi + w * 0.5, lo + w * rng.random()])
         return {"value": fenc(v)}
@@ -166,7 +174,7 @@ def gen_term(rng, cls: str, name: str, lo: float, hi: float, names_in: list[str]
 # ---------------------------------------------------------------------------- rule generation
 def gen_prop(rng, var: dict, max_hedges: int, allow_any: bool) -> dict:
     nh = 0 if rng.random() < 0.55 else rng.randint(1, max(1, max_hedges))
-    hedges = [C(rng, HEDGES[1:]) for _ in range(nh)] if max_hedges else []
+    hedges = [C(rng, EXT_HEDGES) if rng.random() < 0.08 else C(rng, HEDGES[1:]) for _ in range(nh)] if max_hedges else []
     if allow_any and rng.random() < 0.06:
         return {"var": var["name"], "hedges": hedges + ["any"], "term": None}
     return {"var": var["name"], "hedges": hedges, "term": C(rng, var["terms"])["name"]}
@@ -211,7 +219,7 @@ def ast_vars(a: dict) -> set[str]:
 DEFAULT_KNOBS = {
     "activations": ["General"], "fn_reads_output": False, "max_inputs": 3, "max_outputs": 2, "max_blocks": 2,
     "max_rules": 6, "depth": 3, "max_hedges": 2, "outputs_in_antecedents": True, "mixed_types": 0.02,
-    "cascade": True, "disabled": 0.08, "input_lock_range": 0.15,
+    "cascade": True, "disabled": 0.08, "input_lock_range": 0.15, "user_terms": [],
 }
 
 
@@ -241,6 +249,8 @@ def gen_spec(rng, **knobs) -> dict:
         for t in range(rng.randint(1, 4)):
             r = rng.random()
             cls = C(rng, shapes) if r < 0.9 else ("Function" if r < 0.96 else "Constant")
+            if k["user_terms"] and rng.random() < 0.04:
+                cls = C(rng, k["user_terms"])  # a user-defined Term subclass (the documented extension point)
             terms.append(gen_term(rng, cls, in_terms[t], lo, hi, names_in, [], True))
         rlo, rhi = (lo, hi) if rng.random() > 0.06 else C(rng, [(-inf, inf), (lo, inf), (-inf, hi)])  # terms stay in the finite window
         inputs.append({"name": names_in[j], "min": fenc(rlo), "max": fenc(rhi), "lock_range": rng.random() < k["input_lock_range"],
@@ -321,6 +331,8 @@ def gen_spec(rng, **knobs) -> dict:
         if k.get("norm_functions") and rng.random() < 0.08:
             key = C(rng, ["conjunction", "disjunction", "implication"])
             blk[key] = "NormFunction:" + C(rng, NORM_FORMULAS_S if key == "disjunction" else NORM_FORMULAS_T)
+            if rng.random() < 0.4:
+                blk[key] = "NormLambda:" + C(rng, ["max", "psum"] if key == "disjunction" else ["mul", "min", "scaled:0.9", "scaled_method:0.75"])
         if rng.random() < k.get("missing_operators", 0.02):
             blk[C(rng, ["conjunction", "disjunction", "implication", "activation"])] = None
         blocks.append(blk)
@@ -419,8 +431,63 @@ def _num(v):
     return x
 
 
+class DomainRamp(fl.Term):
+    """User-defined term: a ramp that validates its domain (values far below its start are a caller's mistake)."""
+
+    def __init__(self, name: str = "", start: float = nan, end: float = nan, height: float = 1.0) -> None:
+        super().__init__(name, height)
+        self.start = start
+        self.end = end
+
+    def membership(self, x):
+        x = fl.scalar(x)
+        if np.any(x < self.start - 2.0 * abs(self.end - self.start)):
+            raise ValueError(f"value outside the domain of term '{self.name}'")
+        return self.height * np.clip((x - self.start) / (self.end - self.start), 0.0, 1.0)
+
+    def parameters(self) -> str:
+        return super()._parameters(self.start, self.end)
+
+    def configure(self, parameters: str) -> None:
+        self.start, self.end, self.height = self._parse(2, parameters)
+
+
+class InputGain(fl.Term):
+    """User-defined term that computes from the engine it belongs to (like Linear and Function it overrides
+    `update_reference`): the value normalised by the range of the engine's first input variable, times a gain."""
+
+    def __init__(self, name: str = "", gain: float = 1.0, height: float = 1.0) -> None:
+        super().__init__(name, height)
+        self.gain = gain
+        self.engine = None
+
+    def _attached_engine(self):
+        if self.engine is None:
+            raise ValueError(f"term '{self.name}' is not attached to an engine")
+        return self.engine
+
+    def membership(self, x):
+        v = self._attached_engine().input_variables[0]
+        x = fl.scalar(x)
+        return self.height * np.clip(self.gain * (x - v.minimum) / (v.maximum - v.minimum), 0.0, 1.0)
+
+    def update_reference(self, engine) -> None:
+        self.engine = engine
+
+    def parameters(self) -> str:
+        return super()._parameters(self.gain)
+
+    def configure(self, parameters: str) -> None:
+        self.gain, self.height = self._parse(1, parameters)
+
+
+USER_TERMS = {"DomainRamp": DomainRamp, "InputGain": InputGain}
+for _n, _c in USER_TERMS.items():
+    fl.settings.factory_manager.term.constructors[_n] = _c
+
+
 def build_term(t: dict):
-    cls = getattr(fl, t["cls"])
+    cls = USER_TERMS.get(t["cls"]) or getattr(fl, t["cls"])
     a = t["args"]
     if t["cls"] == "Function":
         conv = (lambda v: np.array(fdec(v))) if a.get("array_variables") else fdec
@@ -437,6 +504,58 @@ NORM_FORMULAS_T = ["a * b", "min(a, b)", "max(0.0, a + b - 1.0)"]
 NORM_FORMULAS_S = ["a + b - a * b", "max(a, b)", "min(1.0, a + b)"]
 
 
+def _sq(x):
+    return x * x
+
+
+def _mul(a, b):
+    return a * b
+
+
+class ScaledMin:
+    """A stateful callable - a user's parametrised t-norm - to be wrapped in NormLambda (as the object itself or as its
+    bound method): state that a copy of the engine must not share."""
+
+    def __init__(self, p: float) -> None:
+        self.p = p
+
+    def __call__(self, a, b):
+        return self.p * np.minimum(a, b)
+
+    def compute(self, a, b):
+        return self.p * np.minimum(a, b)
+
+
+_GAIN = [1.0]  # the parameter of the user-defined zero-arity function element `gain0` (process-global, like the factory)
+
+
+def set_gain(v: float) -> None:
+    _GAIN[0] = float(v)
+
+
+def _gain0():
+    return _GAIN[0]
+
+
+env.RESETTERS.append(lambda: set_gain(1.0))
+fl.settings.factory_manager.function.objects["gain0"] = fl.Function.Element(
+    "gain0", "user-defined parameter", "Function", _gain0, arity=0, precedence=100)
+
+
+def uses_gain0(spec: dict) -> bool:
+    return any("gain0" in str(t["args"].get("formula", "")) for v in spec["inputs"] + spec["outputs"] for t in v["terms"])
+
+
+def _register_extension_hedges() -> None:
+    f = fl.settings.factory_manager.hedge
+    f.constructors["squared"] = lambda: fl.HedgeLambda("squared", _sq)
+    f.constructors["rooted"] = lambda: fl.HedgeFunction(fl.Function.create("rooted", "sqrt(x)"))
+
+
+_register_extension_hedges()
+NORM_LAMBDAS = {"mul": _mul, "min": np.minimum, "max": np.maximum, "psum": lambda a, b: a + b - a * b}
+
+
 def build_norm(name: str | None):
     """Registered norm by class name, or 'NormFunction:<formula over a and b>' - the public extension point: a norm
     that *owns a Function term* (an object with state that a copy must not share)."""
@@ -444,6 +563,11 @@ def build_norm(name: str | None):
         return None
     if name.startswith("NormFunction:"):
         return fl.NormFunction(fl.Function.create("nf", name.split(":", 1)[1]))
+    if name.startswith("NormLambda:scaled"):
+        obj = ScaledMin(float(name.split(":")[2]))
+        return fl.NormLambda(obj.compute if name.startswith("NormLambda:scaled_method") else obj)
+    if name.startswith("NormLambda:"):
+        return fl.NormLambda(NORM_LAMBDAS[name.split(":", 1)[1]])
     return getattr(fl, name)()
 
 
@@ -687,7 +811,7 @@ def parse_rule_text(text: str) -> dict:
             raise ValueError(f"cannot parse proposition: {ts}")
         hedges = []
         j = 2
-        while j < len(ts) and ts[j] in HEDGES and (j < len(ts) - 1 or ts[j] == "any"):
+        while j < len(ts) and ts[j] in HEDGES + EXT_HEDGES and (j < len(ts) - 1 or ts[j] == "any"):
             hedges.append(ts[j])
             j += 1
         term = ts[j] if j < len(ts) else None
